@@ -9,8 +9,13 @@ Definition dump_msample (t : msample) : D :=
 Definition samples_of (f : nat) (s : mstate) : list msample :=
   flat_map (fun '(f', t) => if Nat.eqb f f' then [t] else []) (m_samples s).
 
-(** counters, then the recorded samples of functions 0 .. nf-1, each in recording order *)
+Definition cons_of (f : nat) (s : mstate) : list (edict * sense) :=
+  flat_map (fun '(f', c) => if Nat.eqb f f' then [c] else []) (m_cons s).
+
+(** counters, then the recorded samples of functions 0 .. nf-1, each in recording order, then the constraints the
+    steps added to each function *)
 Definition dump_mrun (nf : nat) (ops : list mop) : D :=
   let s := mrun ops minit in
   DL [DN (m_np s); DN (m_ne s); DB (mwf ops minit);
-      DL (map (fun f => DL (map dump_msample (samples_of f s))) (seq 0 nf))].
+      DL (map (fun f => DL (map dump_msample (samples_of f s))) (seq 0 nf));
+      DL (map (fun f => DL (map dump_cons (cons_of f s))) (seq 0 nf))].
